@@ -208,6 +208,15 @@ def le (a b : IR) : Bool := Gen.ir_le.eval2 a.value b.value
 /-- `value_ > other.value_` (same fix; was `>=`) -/
 def gt (a b : IR) : Bool := Gen.ir_gt.eval2 a.value b.value
 def ge (a b : IR) : Bool := Gen.ir_ge.eval2 a.value b.value
+/-- the six comparisons as the machine evaluates them for a `bits` wide `T`: the same bodies, but a difference of
+iterators / a cast to `difference_type` inside them (`E.wsub`) wraps modulo `2^bits`.  The bodies of the present
+source compare `value_` directly, so these are the comparisons above for every width (`ir_rel_ops_all_widths`). -/
+def eqW (bits : Nat) (a b : IR) : Bool := Gen.ir_eq.evalW bits a.value b.value
+def neW (bits : Nat) (a b : IR) : Bool := Gen.ir_ne.evalW bits a.value b.value
+def ltW (bits : Nat) (a b : IR) : Bool := Gen.ir_lt.evalW bits a.value b.value
+def leW (bits : Nat) (a b : IR) : Bool := Gen.ir_le.evalW bits a.value b.value
+def gtW (bits : Nat) (a b : IR) : Bool := Gen.ir_gt.evalW bits a.value b.value
+def geW (bits : Nat) (a b : IR) : Bool := Gen.ir_ge.evalW bits a.value b.value
 def inc (a : IR) : IR := ⟨Gen.ir_inc.eval1 a.value⟩
 def dec (a : IR) : IR := ⟨Gen.ir_dec.eval1 a.value⟩
 def postInc (a : IR) : IR × IR := (a, inc a)
@@ -365,6 +374,15 @@ def irBase : Base IR where
   dec := IR.dec
   addAssign := IR.addAssign
   sub := IR.diff
+
+/-- IntegralRangeIterator<T> of a `bits` wide `T` as the base of a transformed range, with the difference the
+machine computes (`difference_type` = the signed type of the same width): the facade derives `< <= > >=` from it -/
+def irBaseW (bits : Nat) : Base IR where
+  eq := IR.eqW bits
+  inc := IR.inc
+  dec := IR.dec
+  addAssign := IR.addAssign
+  sub := IR.diffW bits
 
 /-- DenseIterator (through the RandomAccessIteratorFacade) as the base of a sparse range / of an IndexedIterator -/
 def denseBase : Base It where
